@@ -607,6 +607,12 @@ func runC02(c *Ctx) {
 
 	ruleRebuild(c, p, "C02.rebuild")
 	ruleCompressDst(c, p, "C02.dst")
+	{
+		c.R.Rule("C02.messages", "E2 containment, exactness and gate provenance (as C17.shape / C17.gates) for every protocol message at every revision sample: what the client writes for a Query packet (client info, settings, parameters, data header) is what a decoder of that revision consumes, no byte more")
+		pairs := messagePairs(p)
+		ruleShapePairs(c, p, "C02.messages", pairs, false)
+		ruleGates(c, p, pairs, "C02.messages")
+	}
 	ruleMethodTable(c, p, "C02.methods")
 	ruleDict(c, p, "C02.dict")
 	ruleVersionArgs(c, p, "C02.version")
